@@ -571,3 +571,28 @@ def char_units(ck, F, rule="CHAR-UNITS"):
                   "%s advances `position` (a character index) by the byte length of a string that is not an ASCII literal: a localized "
                   "name with non-ASCII letters makes the lexer skip characters after it" % qn, f, l, sample={"fn": qn, "literal": lit})
     ck.note("lexer_bodies_writing_position", n)
+
+
+def error_window(ck, F, rule="TABLE-errors"):
+    """The lexer matches an error literal against everything that is left of the input: in Lexer::consume_error the text
+    tested with starts_with(errors.*) is sliced up to `self.len`, not to a fixed window -- the localized names are data
+    (#ÜBERLAUF! has 10 characters, #¿NOMBRE? 9) and any constant cap silently drops the longer ones."""
+    from mir import op_place, place_proj
+    from rules_attr import sources
+    LEXER = "ironcalc_base::expressions::lexer::Lexer"
+    b = ck.need(F.one, "expressions::lexer::Lexer::consume_error")
+    sl = []
+    for bi, t in b.calls():
+        if (b.callee_q(t) or "").rsplit("::", 1)[-1] == "index" and len(t["args"]) == 2 and "Range" in (b.locals[op_place(t["args"][1])["l"]] if op_place(t["args"][1]) else ""):
+            r = b.trace(t["args"][1])
+            if r["kind"] == "rv" and r["rv"]["k"] == "agg":
+                ops = dict(zip(r["rv"].get("fields") or [], r["rv"]["ops"]))
+                if "end" in ops:
+                    sl.append((bi, sources(b, ops["end"])))
+    ck.ob(rule, "consume_error|window-slice", len(sl) >= 1, "consume_error: slice of the remaining input not found", b.file, b.line)
+    for bi, sr in sl:
+        f, l = b.loc(bi)
+        ok = ("field", LEXER, "len") in sr and not any(x[0] in ("const", "arith", "call") for x in sr)
+        ck.ob(rule, "consume_error|matches against the whole rest of the input", ok,
+              "consume_error compares error names with a window whose end comes from %s: a localized error name longer than the window "
+              "is never recognised" % sorted(map(str, sr)), f, l)
